@@ -299,7 +299,7 @@ func runC06(c *Ctx) {
 		}
 		guarded := false
 		for _, iff := range ifsIn(fn) {
-			if ex(iff.Cond) == "("+o.key+" != nil)" && edgeMustPass(fn, edge{iff.Block(), iff.Block().Succs[0]}, S.Block()) {
+			if tb, _, hit := succWhen(iff, "("+o.key+" != nil)"); hit && edgeMustPass(fn, edge{iff.Block(), tb}, S.Block()) {
 				guarded = true
 			}
 		}
@@ -334,6 +334,9 @@ func runC06(c *Ctx) {
 						continue
 					}
 					match := strings.Contains(s.val, need[f])
+					if f == "IncompatibilityFlag" {
+						match = isSignedFlagValue(s.val)
+					}
 					if f == "SignatureLinkID" {
 						match = s.val == o.link
 					}
@@ -347,10 +350,10 @@ func runC06(c *Ctx) {
 			}
 			// signed flag set iff key
 			for _, s := range fs {
-				if s.field == "IncompatibilityFlag" && strings.Contains(s.val, "| 1)") {
+				if s.field == "IncompatibilityFlag" && isSignedFlagValue(s.val) {
 					g := false
 					for _, iff := range ifsIn(fn) {
-						if ex(iff.Cond) == "("+o.key+" != nil)" && edgeMustPass(fn, edge{iff.Block(), iff.Block().Succs[0]}, s.st.Block()) {
+						if tb, _, hit := succWhen(iff, "("+o.key+" != nil)"); hit && edgeMustPass(fn, edge{iff.Block(), tb}, s.st.Block()) {
 							g = true
 						}
 					}
@@ -393,7 +396,7 @@ func ruleKeyPlumbing(c *Ctx, rule string) {
 	lits := []lit{
 		{"root", "Channel.initialize", "frame.ReadWriter", map[string]string{"ByteReadWriter": "recv.rwc", "DialectRW": "recv.node.dialectRW", "InKey": "recv.node.InKey"}},
 		{"root", "Channel.initialize", "streamwriter.Writer", map[string]string{"FrameWriter": "recv.frameWriter.Writer", "SystemID": "recv.node.OutSystemID", "ComponentID": "recv.node.OutComponentID",
-			"SignatureLinkID": "gomavlib.randomByte()#0", "Key": "recv.node.OutKey", "Version": "closure:root:Channel.initialize$1()"}},
+			"SignatureLinkID": "gomavlib.randomByte()#0", "Key": "recv.node.OutKey"}},
 		{"pkg/frame", "NewReader", "frame.Reader", map[string]string{"ByteReader": "arg0.Reader", "DialectRW": "arg0.DialectRW", "InKey": "arg0.InKey"}},
 		{"pkg/frame", "NewWriter", "frame.Writer", map[string]string{"ByteWriter": "arg0.Writer", "DialectRW": "arg0.DialectRW", "OutVersion": "arg0.OutVersion", "OutSystemID": "arg0.OutSystemID",
 			"OutComponentID": "arg0.OutComponentID", "OutSignatureLinkID": "arg0.OutSignatureLinkID", "OutKey": "arg0.OutKey"}},
@@ -458,23 +461,91 @@ func ruleKeyPlumbing(c *Ctx, rule string) {
 		sortStrings(probs)
 		r.Check(len(probs) == 0, rule, "ReadWriter.Initialize forwarding", c.Pos(fn.Pos()), "reader and writer receive every configuration field", "configuration not forwarded: "+strings.Join(probs, "; "))
 	}
-	// Version closure of Channel.initialize
-	if cl := c.FnOpt("root", "Channel.initialize$1"); cl != nil {
-		ok := false
-		for _, iff := range ifsIn(cl) {
-			if ex(iff.Cond) == "(recv.node.OutVersion == 2)" {
-				t, f := iff.Block().Succs[0], iff.Block().Succs[1]
-				rt, ok1 := t.Instrs[len(t.Instrs)-1].(*ssa.Return)
-				rff, ok2 := f.Instrs[len(f.Instrs)-1].(*ssa.Return)
-				if ok1 && ok2 && ex(rt.Results[0]) == "2" && ex(rff.Results[0]) == "1" {
-					ok = true
-				}
+	// version mapping of Channel.initialize: node.OutVersion == V2 → streamwriter.V2, anything else → V1
+	if ini := c.FnOpt("root", "Channel.initialize"); ini != nil {
+		ok, got := false, "no streamwriter.Writer literal"
+		for _, a := range litAllocs(ini, "streamwriter.Writer") {
+			if v := litFields(a)["Version"]; v != nil {
+				ok, got = versionMappingOK(c, ini, v)
+			} else {
+				got = "Version field not set"
 			}
 		}
-		r.Check(ok, rule, "Channel.initialize version mapping", c.Pos(cl.Pos()), "OutVersion == V2 → streamwriter.V2 else V1", "the node's OutVersion is not mapped to the stream writer's version (V2 → V2, else V1)")
-	} else {
-		r.Broken(rule, "Channel.initialize version mapping", "version mapping closure not found")
+		r.Check(ok, rule, "Channel.initialize version mapping", c.Pos(ini.Pos()), "OutVersion == V2 → streamwriter.V2 else V1", "the node's OutVersion is not mapped to the stream writer's version (V2 → V2, anything else → V1): "+got)
 	}
+}
+
+// versionMappingOK recognises the value  (node.OutVersion == 2) ? 2 : 1  computed by a closure, a helper
+// function or an if/else in place.
+func versionMappingOK(c *Ctx, fn *ssa.Function, v ssa.Value) (bool, string) {
+	const src = "recv.node.OutVersion"
+	twoWay := func(f *ssa.Function, x string) bool {
+		for _, iff := range ifsIn(f) {
+			tb, fb, hit := succWhen(iff, "("+x+" == 2)")
+			if !hit {
+				continue
+			}
+			rt, ok1 := tb.Instrs[len(tb.Instrs)-1].(*ssa.Return)
+			rf, ok2 := fb.Instrs[len(fb.Instrs)-1].(*ssa.Return)
+			if ok1 && ok2 && len(rt.Results) == 1 && ex(rt.Results[0]) == "2" && ex(rf.Results[0]) == "1" && len(retInstrs(f)) == 2 {
+				return true
+			}
+		}
+		return false
+	}
+	switch x := peel(v).(type) {
+	case *ssa.Call:
+		var f *ssa.Function
+		if mc, ok := x.Call.Value.(*ssa.MakeClosure); ok {
+			f = mc.Fn.(*ssa.Function)
+		} else {
+			f = x.Call.StaticCallee()
+		}
+		if f == nil || f.Blocks == nil {
+			return false, ex(v)
+		}
+		if len(x.Call.Args) == 0 {
+			return twoWay(f, src), ex(v)
+		}
+		if len(x.Call.Args) == 1 && ex(x.Call.Args[0]) == src {
+			return twoWay(f, "arg0"), ex(v)
+		}
+		return false, ex(v)
+	case *ssa.Phi:
+		if len(x.Edges) != 2 {
+			return false, ex(v)
+		}
+		ok := true
+		holdsOnEdge := func(want string, pred *ssa.BasicBlock) bool {
+			if condTrueAt(fn, want, pred) {
+				return true
+			}
+			if iff := blockIf(pred); iff != nil {
+				if tb, _, hit := succWhen(iff, want); hit && tb == x.Block() {
+					return true
+				}
+			}
+			return false
+		}
+		for i, e := range x.Edges {
+			k, isK := constInt(e)
+			pred := x.Block().Preds[i]
+			switch {
+			case isK && k == 2:
+				if !holdsOnEdge("("+src+" == 2)", pred) {
+					ok = false
+				}
+			case isK && k == 1:
+				if !holdsOnEdge("("+src+" != 2)", pred) {
+					ok = false
+				}
+			default:
+				ok = false
+			}
+		}
+		return ok, ex(v)
+	}
+	return false, ex(v)
 }
 
 // ---------------------------------------------------------------------------------------------
@@ -870,7 +941,7 @@ func runC09(c *Ctx) {
 				}
 			}
 			for _, s := range fs {
-				if s.owner == owner && want[s.field] != "" && s.val != want[s.field] && !(s.field == "IncompatibilityFlag" && strings.HasSuffix(s.val, "| 1)")) {
+				if s.owner == owner && want[s.field] != "" && s.val != want[s.field] && !(s.field == "IncompatibilityFlag" && isSignedFlagValue(s.val) && condTrueAt(fn, "("+o.key+" != nil)", s.st.Block())) {
 					probs = append(probs, s.field+" is also set from "+s.val)
 				}
 			}
@@ -1032,3 +1103,7 @@ func isConstOrNil(v ssa.Value) bool {
 	_, ok := v.(*ssa.Const)
 	return ok
 }
+
+// isSignedFlagValue: the value stored into IncompatibilityFlag has the signed bit (0x01) set: `x | 1` or the
+// constant 1 (V2FlagSigned).
+func isSignedFlagValue(v string) bool { return strings.HasSuffix(v, "| 1)") || v == "1" }
